@@ -33,10 +33,10 @@ func init() {
 				l = append(l, fw.Case{Idx: len(l), Kind: "lines", N: sq})
 			}
 			l = append(l, fw.Case{Idx: len(l), Kind: "leapers"})
-			l = mkCases(l, "pawns", 16, seed, pick(tier, 2000, 50000))
-			l = mkCases(l, "occ", 16, seed, pick(tier, 600, 40000))
-			l = mkCases(l, "xor", 16, seed, pick(tier, 300, 20000))
-			l = mkCases(l, "derived", 32, seed, pick(tier, 60, 6000))
+			l = mkCases(l, "pawns", 16, seed, pick(tier, 5000, 50000))
+			l = mkCases(l, "occ", 16, seed, pick(tier, 4000, 40000))
+			l = mkCases(l, "xor", 16, seed, pick(tier, 2000, 20000))
+			l = mkCases(l, "derived", 32, seed, pick(tier, 400, 6000))
 			return l
 		},
 		Floors: func(tier string) map[string]int64 {
@@ -288,6 +288,33 @@ func derivedChecks(c *fw.Ctx, p ref.Pos) {
 			if fmt.Sprint(gs) != fmt.Sprint(ws) {
 				c.Violate("derived:FindPins", "FindPins(%v,kind %d)=%v want %v in %s", col, kind, gs, ws, fen)
 			}
+		}
+	}
+	// attack queries restricted to piece subsets (used by the historical engines)
+	subsets := [][]board.Piece{board.KingQueen, board.QueenRookBishop, board.QueenRookKnightBishopPawn, {board.Pawn}, {board.Knight}, {board.King}, board.KingQueenRookKnightBishop}
+	for i := 0; i < 24; i++ {
+		sq := (i*11 + int(p.Half)) % 64
+		white := i%2 == 0
+		sub := subsets[i%len(subsets)]
+		want := false
+		for _, a := range p.Attackers(sq, !white) {
+			k := p.B[a]
+			if k < 0 {
+				k = -k
+			}
+			for _, pc := range sub {
+				if adapt.BPiece(int(k)) == pc {
+					want = true
+				}
+			}
+		}
+		c.Eval(1)
+		c.Count("subset_attack_queries", 1)
+		if got := pos.IsAttackedBy(adapt.BColor(white), adapt.BSq(sq), sub); got != want {
+			c.Violate("derived:IsAttackedBy", "IsAttackedBy(%v,%v,%v)=%v want %v in %s", adapt.BColor(white), adapt.BSq(sq), sub, got, want, fen)
+		}
+		if got := pos.IsDefendedBy(adapt.BColor(!white), adapt.BSq(sq), sub); got != want {
+			c.Violate("derived:IsDefendedBy", "IsDefendedBy(%v,%v,%v)=%v want %v in %s", adapt.BColor(!white), adapt.BSq(sq), sub, got, want, fen)
 		}
 	}
 	// checkmate for the side to move
